@@ -25,7 +25,8 @@ LEVEL_TEXT = ("Every member of four finite pipeline families is executed through
               "sequential and dask; calibration fitness) both from Python objects and from generated YAML text, with "
               "1-3 readout steps and debug capture on/off; the recorded call trace (model, kwargs with types, step, "
               "detector identity) must equal the predicted sequence, so every order relation between the 45 group pairs "
-              "and every enabled pattern up to the bound is decided, not sampled.")
+              "and every enabled pattern up to the bound is decided, not sampled."
+              " Family f: a run after an abandoned traversal of a group (a failing model at every position x step, or a partial look at the group); family yb: hand-written YAML with the 16 boolean spellings of YAML 1.1.")
 LEVEL_NOTE = ("Bounded: <=2 models per group, <=3 readout steps, argument palette of 7 shapes; probe models stand in for "
               "real models (the dispatcher does not look inside a model). Trusted: the reference model (group order "
               "list copied from the property statement) and Python's import system.")
